@@ -121,8 +121,8 @@ NEEDS_CHUNK = [
      '<field name="r" type="char"/>'),
 ]
 POSITIONS_CHUNK = ["chunked", "chunkedcase", "nestedchunked", "casechunked"]
-POSITIONS_ALL = ["top", "chunked", "case", "chunkedcase", "afterchunked", "nestedchunked", "casechunked"]
-POSITIONS_NOCHUNK = ["top", "case", "afterchunked"]
+POSITIONS_ALL = ["top", "chunked", "case", "chunkedcase", "afterchunked", "nestedchunked", "casechunked", "afterbreak"]
+POSITIONS_NOCHUNK = ["top", "case", "afterchunked", "afterbreak"]
 
 ENUM_VIOLATIONS = [
     ("enum-bad-ordinal", '<enum name="Bad" type="char"><value name="A">x</value></enum>'),
@@ -158,6 +158,8 @@ def wrap(seq, position):
         return f'<field name="sel" type="char"/><switch field="sel"><case value="1">{seq}</case></switch>'
     if position == "chunkedcase":
         return f'<chunked><field name="sel" type="char"/><switch field="sel"><case value="1">{seq}</case></switch></chunked>'
+    if position == "afterbreak":
+        return f'<chunked><field name="c0" type="string"/><break/></chunked>{seq}'
     if position == "afterchunked":
         return f'<chunked><field name="c0" type="string"/></chunked>{seq}'
     if position in ("nestedchunked", "casechunked"):
